@@ -501,8 +501,12 @@ pub fn lane_alone(args: &[String], checks: &mut Vec<Check>) {
     let flat: Vec<Sym> = (0..n).flat_map(|i| (0..lanes).map(move |l| (i, l))).map(|(i, l)| var(&format!("y{i}_{l}"), ((i * 7 + l * 3) % 11) as f64 * 0.5 - 1.0)).collect();
     let data = ArrayD::from_shape_vec(IxDyn(&dshape), flat.clone()).unwrap();
     let qs: Vec<Sym> = (0..n - 1).map(|i| var(&format!("q{i}"), shadow(x[i]) + 0.3 * (shadow(x[i + 1]) - shadow(x[i])))).collect();
-    let specs = ["Natural", "Mixed:NotAKnot:FirstDeriv", "Mixed:SecondDeriv:Clamped", "NotAKnot", "Mixed:FirstDeriv:SecondDeriv", "Clamped"];
-    let tag = format!("[{strat},n={n},lanes={}]", str_arg(args, "lanes", ""));
+    let specs: Vec<&str> = match str_arg(args, "bcset", "varied") {
+        "mixed" => vec!["Mixed:FirstDeriv:SecondDeriv", "Mixed:FirstDeriv:SecondDeriv", "Mixed:NotAKnot:FirstDeriv", "Mixed:SecondDeriv:Natural", "Mixed:Clamped:NotAKnot", "Mixed:FirstDeriv:FirstDeriv"],
+        "samekind" => vec!["Clamped", "Clamped", "Natural", "Natural"],
+        _ => vec!["Natural", "Mixed:NotAKnot:FirstDeriv", "Mixed:SecondDeriv:Clamped", "NotAKnot", "Mixed:FirstDeriv:SecondDeriv", "Clamped"],
+    };
+    let tag = format!("[{strat},n={n},lanes={},bc={}]", str_arg(args, "lanes", ""), str_arg(args, "bcset", "varied"));
     if lanes == 0 {
         // zero-length trailing axis: must not panic, result is empty
         let r = catch_unwind(AssertUnwindSafe(|| {
@@ -569,3 +573,133 @@ pub fn lane_alone(args: &[String], checks: &mut Vec<Check>) {
 
 #[allow(dead_code)]
 fn _u(_: Ix0, _: Ix5, _: Ix6) {}
+
+// ------------------------------------------------------------------------------------------------
+// C13: memory layout / ownership of data and axes does not change any result (node identity)
+// ------------------------------------------------------------------------------------------------
+fn reversed_strides<D: Dimension>(a: &Array<Sym, D>, axes: &[usize]) -> Array<Sym, D> {
+    // same logical contents, negative strides along `axes`
+    let mut r = a.clone();
+    for &ax in axes { r.invert_axis(Axis(ax)); }
+    let mut std = Array::from_elem(a.raw_dim(), konst_frac(0, 1));
+    std.assign(&r);
+    for &ax in axes { std.invert_axis(Axis(ax)); }
+    std
+}
+fn permuted_memory(a: &ArrayD<Sym>) -> ArrayD<Sym> {
+    // trailing axes stored in reversed order in memory, logical shape unchanged (contiguous, non-standard)
+    let nd = a.ndim();
+    if nd < 3 { return a.clone(); }
+    let mut perm: Vec<usize> = (0..nd).collect();
+    perm[1..].reverse();
+    let p = a.clone().permuted_axes(IxDyn(&perm));          // logical permuted view
+    let mut std = ArrayD::from_elem(p.raw_dim(), konst_frac(0, 1));
+    std.assign(&p);                                           // standard layout in the permuted order
+    let mut inv = vec![0usize; nd];
+    for (i, &pi) in perm.iter().enumerate() { inv[pi] = i; }
+    std.permuted_axes(IxDyn(&inv))                            // logical shape restored, memory order permuted
+}
+fn strided_big(a: &ArrayD<Sym>) -> ArrayD<Sym> {
+    let big_shape: Vec<usize> = a.shape().iter().map(|s| s * 2 + 1).collect();
+    let mut big = ArrayD::from_elem(IxDyn(&big_shape), var("POISON", 777.0));
+    {
+        let mut v = big.view_mut();
+        for ax in 0..a.ndim() { v.slice_axis_inplace(Axis(ax), ndarray::Slice::new(1, None, 2)); }
+        v.assign(a);
+    }
+    big
+}
+pub fn layouts(args: &[String], checks: &mut Vec<Check>) {
+    let n: usize = str_arg(args, "n", "6").parse().unwrap();
+    let tshape = shape_arg(args, "lanes");
+    let strat = str_arg(args, "strat", "linear");
+    let tag = format!("[{strat},n={n},lanes={}]", str_arg(args, "lanes", ""));
+    let x = axis("x", n, 3);
+    let xs: Vec<f64> = x.iter().map(|s| shadow(*s)).collect();
+    let mut qv: Vec<Sym> = (0..n - 1).map(|i| var(&format!("q{i}"), xs[i] + 0.3125 * (xs[i + 1] - xs[i]))).collect();
+    qv.push(var("qk", xs[n / 2]));   // exactly on a knot
+    let qarr = Array1::from(qv.clone());
+    if strat == "bilinear" {
+        let ny = 5usize;
+        let y = axis("y", ny, 6);
+        let qy = var("qy", shadow(y[1]) + 0.4 * (shadow(y[2]) - shadow(y[1])));
+        let mut ds = vec![n, ny]; ds.extend(&tshape);
+        let data = sym_array("z", &ds, -2.0, 3.0);
+        let run = |d: ArrayD<Sym>, xa: Array1<Sym>, ya: Array1<Sym>| -> Vec<u32> {
+            let it = Interp2DBuilder::new(d).x(xa).y(ya).strategy(Bilinear::new().extrapolate(true)).build().unwrap();
+            let mut out = vec![];
+            for q in qv.iter() { out.extend(it.interp(*q, qy).unwrap().iter().map(|s| s.0)); }
+            out
+        };
+        let base = run(data.clone(), x.clone(), y.clone());
+        let mut f = ArrayD::from_elem(data.raw_dim().f(), konst_frac(0, 1)); f.assign(&data);
+        ck(checks, format!("C13:data-f-order{tag}"), catch_unwind(AssertUnwindSafe(|| run(f.clone(), x.clone(), y.clone()))).map(|r| r == base).unwrap_or(false), String::new());
+        ck(checks, format!("C13:data-permuted-memory{tag}"), catch_unwind(AssertUnwindSafe(|| run(permuted_memory(&data), x.clone(), y.clone()))).map(|r| r == base).unwrap_or(false), String::new());
+        let all: Vec<usize> = (0..data.ndim()).collect();
+        ck(checks, format!("C13:data-reversed-strides{tag}"), catch_unwind(AssertUnwindSafe(|| run(reversed_strides(&data, &all), x.clone(), y.clone()))).map(|r| r == base).unwrap_or(false), String::new());
+        ck(checks, format!("C13:x-axis-reversed-strides{tag}"), catch_unwind(AssertUnwindSafe(|| run(data.clone(), reversed_strides(&x, &[0]), y.clone()))).map(|r| r == base).unwrap_or(false), String::new());
+        ck(checks, format!("C13:y-axis-reversed-strides{tag}"), catch_unwind(AssertUnwindSafe(|| run(data.clone(), x.clone(), reversed_strides(&y, &[0])))).map(|r| r == base).unwrap_or(false), String::new());
+        // views of strided holders
+        let big = strided_big(&data);
+        let r = catch_unwind(AssertUnwindSafe(|| {
+            let mut v = big.view();
+            for ax in 0..v.ndim() { v.slice_axis_inplace(Axis(ax), ndarray::Slice::new(1, None, 2)); }
+            let it = Interp2DBuilder::new(v).x(x.view()).y(y.view()).strategy(Bilinear::new().extrapolate(true)).build().unwrap();
+            let mut out = vec![];
+            for q in qv.iter() { out.extend(it.interp(*q, qy).unwrap().iter().map(|s| s.0)); }
+            out
+        }));
+        ck(checks, format!("C13:data-strided-view-axes-views{tag}"), r.map(|r| r == base).unwrap_or(false), String::new());
+        return;
+    }
+    let mut ds = vec![n]; ds.extend(&tshape);
+    let data = sym_array("y", &ds, -2.0, 3.0);
+    macro_rules! run_with { ($d:expr, $xa:expr) => {{
+        let d = $d; let xa = $xa;
+        catch_unwind(AssertUnwindSafe(|| -> Vec<u32> {
+            let mut out = vec![];
+            if strat == "linear" {
+                let it = Interp1DBuilder::new(d).x(xa).strategy(Linear::new().extrapolate(true)).build().unwrap();
+                for q in qv.iter() { out.extend(it.interp(*q).unwrap().iter().map(|s| s.0)); }
+                out.extend(it.interp_array(&qarr).unwrap().iter().map(|s| s.0));
+            } else {
+                let it = Interp1DBuilder::new(d).x(xa).strategy(CubicSpline::new().extrapolate(true)).build().unwrap();
+                for q in qv.iter() { out.extend(it.interp(*q).unwrap().iter().map(|s| s.0)); }
+                out.extend(it.interp_array(&qarr).unwrap().iter().map(|s| s.0));
+            }
+            out
+        }))
+    }}; }
+    let base = match run_with!(data.clone(), x.clone()) { Ok(b) => b, Err(_) => { ck(checks, format!("C13:baseline{tag}"), false, "panic".into()); return; } };
+    let mut f = ArrayD::from_elem(data.raw_dim().f(), konst_frac(0, 1)); f.assign(&data);
+    let all: Vec<usize> = (0..data.ndim()).collect();
+    let lane_axes: Vec<usize> = (1..data.ndim()).collect();
+    ck(checks, format!("C13:data-f-order{tag}"), run_with!(f.clone(), x.clone()).map(|r| r == base).unwrap_or(false), String::new());
+    ck(checks, format!("C13:data-permuted-memory{tag}"), run_with!(permuted_memory(&data), x.clone()).map(|r| r == base).unwrap_or(false), String::new());
+    ck(checks, format!("C13:data-reversed-strides-all-axes{tag}"), run_with!(reversed_strides(&data, &all), x.clone()).map(|r| r == base).unwrap_or(false), String::new());
+    ck(checks, format!("C13:data-reversed-lane-axes{tag}"), run_with!(reversed_strides(&data, &lane_axes), x.clone()).map(|r| r == base).unwrap_or(false), String::new());
+    ck(checks, format!("C13:data-reversed-first-axis{tag}"), run_with!(reversed_strides(&data, &[0]), x.clone()).map(|r| r == base).unwrap_or(false), String::new());
+    ck(checks, format!("C13:axis-reversed-strides{tag}"), run_with!(data.clone(), reversed_strides(&x, &[0])).map(|r| r == base).unwrap_or(false), String::new());
+    ck(checks, format!("C13:data-shared-storage{tag}"), run_with!(data.clone().into_shared(), x.clone().into_shared()).map(|r| r == base).unwrap_or(false), String::new());
+    {
+        let big = strided_big(&data);
+        let xbig = { let mut b = Array1::from_elem(2 * n + 1, var("POISON", 777.0)); b.slice_mut(ndarray::s![1..;2]).assign(&x); b };
+        let r = catch_unwind(AssertUnwindSafe(|| -> Vec<u32> {
+            let mut v = big.view();
+            for ax in 0..v.ndim() { v.slice_axis_inplace(Axis(ax), ndarray::Slice::new(1, None, 2)); }
+            let xv = xbig.slice(ndarray::s![1..;2]);
+            let mut out = vec![];
+            if strat == "linear" {
+                let it = Interp1DBuilder::new(v).x(xv).strategy(Linear::new().extrapolate(true)).build().unwrap();
+                for q in qv.iter() { out.extend(it.interp(*q).unwrap().iter().map(|s| s.0)); }
+                out.extend(it.interp_array(&qarr).unwrap().iter().map(|s| s.0));
+            } else {
+                let it = Interp1DBuilder::new(v).x(xv).strategy(CubicSpline::new().extrapolate(true)).build().unwrap();
+                for q in qv.iter() { out.extend(it.interp(*q).unwrap().iter().map(|s| s.0)); }
+                out.extend(it.interp_array(&qarr).unwrap().iter().map(|s| s.0));
+            }
+            out
+        }));
+        ck(checks, format!("C13:data-strided-view-axis-strided-view{tag}"), r.map(|r| r == base).unwrap_or(false), String::new());
+    }
+}
